@@ -103,6 +103,55 @@ impl Report {
     pub fn known_finding(&mut self, id: &str, what: &str) {
         self.known_seen.push(json!({"id": id, "what": what}));
     }
+    /// fold a worker thread's report into this one
+    pub fn merge(&mut self, other: Report) {
+        self.evaluations += other.evaluations;
+        self.distinct.extend(other.distinct);
+        for s in other.samples {
+            self.sample(s);
+        }
+        for (name, h) in other.histograms {
+            let mine = self.histograms.entry(name).or_default();
+            for (k, v) in h {
+                *mine.entry(k).or_default() += v;
+            }
+        }
+        for (k, v) in other.counters {
+            *self.counters.entry(k).or_default() += v;
+        }
+        for (k, v) in other.exhaustive {
+            let e = self.exhaustive.entry(k).or_insert(true);
+            *e = *e && v;
+        }
+        for v in other.violations {
+            self.violation(v);
+        }
+        self.known_seen.extend(other.known_seen);
+        self.notes.extend(other.notes);
+    }
+    /// run `work(thread_index, &mut thread_report)` on `threads` threads and merge the reports
+    pub fn parallel<F>(&mut self, threads: usize, work: F)
+    where
+        F: Fn(usize, &mut Report) + Sync,
+    {
+        let results: Vec<Report> = std::thread::scope(|scope| {
+            let handles: Vec<_> = (0..threads)
+                .map(|i| {
+                    let work = &work;
+                    let mut r = Report::new(&self.property, &self.tier, self.seed);
+                    r.max_samples = 3;
+                    scope.spawn(move || {
+                        work(i, &mut r);
+                        r
+                    })
+                })
+                .collect();
+            handles.into_iter().map(|h| h.join().expect("worker thread panicked")).collect()
+        });
+        for r in results {
+            self.merge(r);
+        }
+    }
     pub fn to_json(&self) -> Value {
         json!({
             "property": self.property,
